@@ -324,10 +324,10 @@ func c04b(c *Ctx) {
 				if j := strings.LastIndex(k, "["); j > 0 {
 					base = k[:j]
 				}
-				if et == base+"["+addOne(idx)+"]" && hasLit(must, "+("+idx+" < builtin:len("+base+")-1)") {
+				if et == base+"["+addOne(idx)+"]" && hasLit(must, "+"+ltTerm(idx, "builtin:len("+base+")-1")) {
 					okNext = true
 				}
-				if et == "-1" && hasLit(must, "-("+idx+" < builtin:len("+base+")-1)") {
+				if et == "-1" && hasLit(must, "-"+ltTerm(idx, "builtin:len("+base+")-1")) {
 					okLast = true
 				}
 			}
